@@ -228,7 +228,11 @@ class Run:
         resources = [ResDef('kopf.dev', 'v1', 'kopfexamples', 'KopfExample', status_sub=self.status_sub)]
         for extra in cl.get('extra_resources', []):
             resources.append(ResDef(*extra['gvp'], extra['kind'], namespaced=extra.get('namespaced', True),
-                                    status_sub=extra.get('status_sub', False)))
+                                    status_sub=extra.get('status_sub', False), shortnames=tuple(extra.get('shortnames') or ()),
+                                    categories=tuple(extra.get('categories') or ()), singular=extra.get('singular')))
+        if cl.get('kex_names'):
+            resources[0].shortnames = tuple(cl['kex_names'].get('shortnames') or ())
+            resources[0].categories = tuple(cl['kex_names'].get('categories') or ())
         quirks = {k: v for k, v in cl.items() if k.startswith('quirk_')}
         if cl.get('rv0') is not None:
             quirks['rv'] = cl['rv0']      # where the cluster's resource versions start (a history may cross a power of ten)
@@ -307,6 +311,10 @@ class Run:
             eff = cl.create(KEX, 'default', OBJECTS[act['obj']], body) is not None
         elif a == 'edit_spec':
             eff = cl.edit(*self.key(act['obj']), lambda b: b.setdefault('spec', {}).update(f=act['v'])) is not None
+        elif a == 'xcreate':      # an object of another kind: act['gvp'], act['ns'] (None for cluster-scoped kinds)
+            eff = cl.create(tuple(act['gvp']), act.get('ns'), act['name'], {'spec': {'f': act['v']}}) is not None
+        elif a == 'xedit':
+            eff = cl.edit(tuple(act['gvp']), act.get('ns'), act['name'], lambda b: b.setdefault('spec', {}).update(f=act['v'])) is not None
         elif a == 'edit_status':
             eff = cl.edit(*self.key(act['obj']), lambda b: b.setdefault('status', {}).update(foreign=act['v'])) is not None
         elif a == 'annotate':
